@@ -11,11 +11,15 @@ package transportoptions
 //@   acquires {C20} TransportOptions.optionsLk
 //@   modifies to.options
 //@ func (*transportoptions.TransportOptions).ClearOptions {C09,C20}
+//@   guarantee [forgets-only-this] forall k datatransfer.ChannelID :: (has(self.options, k) <==> old(has(self.options, k)) && k != chid)
 //@   acquires {C20} TransportOptions.optionsLk
 //@   modifies to.options
 //@ func (*transportoptions.TransportOptions).ApplyOptions {C20}
 //@   acquires {C20} TransportOptions.optionsLk, graphsync.Transport.dtChannelsLk, graphsync.dtChannel.optionsLk
 //@   loop 0 invariant [in-order] $i >= 0
+//@   loop 0 step [each-option-succeeded] calls(dyn.TransportOption) == 1 && ret(dyn.TransportOption, 0) == nil && all(dyn.TransportOption, $1 == chid && $2 == transport)
+//@   ensures [first-failure-stops] {C16} (result != nil) == (calls(dyn.TransportOption) >= 1 && ret_last(dyn.TransportOption, 0) != nil) &&
+//@       (result != nil ==> errIs(result, ret_last(dyn.TransportOption, 0)))
 //@ func (*transportoptions.TransportOptions).ClearAll {C20}
 //@   acquires {C20} TransportOptions.optionsLk
 //@   modifies to.options
